@@ -19,7 +19,7 @@
                                         [prec_lt] being SemVer section 11 clause by clause.
    States are arbitrary (not only reachable ones), so every statement holds after histories of
    any length; C20_history_refused_frame states the history form explicitly. *)
-From NV Require Import Base C20_Semver C20_Model C20_Proofs.
+From NV Require Import Base C20_Semver C20_Model C20_Proofs C20_Audit.
 From NV Require C20_SemverProofs.
 Open Scope string_scope.
 
@@ -208,6 +208,141 @@ Print Assumptions C20_semver_higher.
 Theorem C20_model_meets_oracle : forall i, wf i = true -> spec_ok i (model i) = true.
 Proof. exact c20_model_spec_ok. Qed.
 Print Assumptions C20_model_meets_oracle.
+
+(* ====================================================================== *)
+(* Theorems added by the audit (docs/audit/C20.md)                         *)
+(* ====================================================================== *)
+
+(* ---------- histories of any length: the declarative machine ---------- *)
+
+(* spec_step tbl T (OInstall src ow)  = the root with the directory of the new plugin replaced by
+                                        the files of the source when [verdict] is positive, T otherwise;
+   spec_step tbl T (OUninstall n)     = T without the directory n (T itself for an invalid name);
+   spec_final                         = spec_step folded over the history.
+   The operational model of a history (Install / Uninstall mirrored statement by statement)
+   ends, whatever the length of the history and the initial root, in the state of that machine. *)
+Theorem C20_history_spec : forall tbl ops st,
+  forallb op_ok ops = true -> final_state tbl st ops = spec_final tbl st ops.
+Proof. exact history_refines_spec. Qed.
+Print Assumptions C20_history_spec.
+
+(* the verdict, clause by clause: usable source with valid, rightly named metadata, AND
+   (no plugin of that name | a working one and (overwrite or strictly higher) | a broken one and overwrite) *)
+Theorem C20_verdict_iff : forall tbl T src ow,
+  verdict tbl T src ow <> None <->
+  exists n v, candidate tbl src = Some (n, v) /    (existing tbl T n = None
+     \/ (exists en ev, existing tbl T n = Some (AOk en ev) /\ (ow = true \/ higher v ev))
+     \/ (exists a, existing tbl T n = Some a /\ (forall en ev, a <> AOk en ev) /\ ow = true)).
+Proof. exact verdict_iff. Qed.
+Print Assumptions C20_verdict_iff.
+
+(* what a positive verdict does to the root: exactly the files of the source under the name,
+   every other directory as it was *)
+Theorem C20_spec_step_install : forall tbl T src ow n v ex,
+  verdict tbl T src ow = Some (n, v, ex) ->
+  afind n (spec_step tbl T (OInstall src ow)) = Some (map mask (spec_files src)) /\
+  (forall k, k <> n -> afind k (spec_step tbl T (OInstall src ow)) = afind k T).
+Proof. exact spec_step_install. Qed.
+Print Assumptions C20_spec_step_install.
+
+(* a refused operation (install or uninstall) at ANY place of a history of any length leaves the
+   root, List and the answers of all plugins as they were before it *)
+Theorem C20_history_step_frame : forall tbl ops1 o st,
+  step_refused (snd (mstep tbl (final_state tbl st ops1) o)) ->
+  final_state tbl st (ops1 ++ [o]) = final_state tbl st ops1 /\
+  view_of tbl (final_state tbl st (ops1 ++ [o])) = view_of tbl (final_state tbl st ops1).
+Proof. exact history_step_frame. Qed.
+Print Assumptions C20_history_step_frame.
+
+(* ---------- listed, fetched and uninstalled by its name ---------- *)
+
+(* after a successful installation Get(n) finds the executable the source designates (modes & 0755),
+   it answers the new metadata, List names n; Uninstall(n) succeeds, leaves the root as it was
+   without n, and then n is neither fetched nor listed *)
+Theorem C20_installed_get : forall tbl st src ow st' r,
+  source_ok src = true -> install tbl st src ow = (st', r) -> r_err r = None ->
+  exists n v e,
+    candidate tbl src = Some (n, v) /\ spec_exe src = Some e /\ f_name e = bin_name n /\
+    get_plugin st' n = GFound (mask e) /\
+    ask tbl n (mask e) = AOk n v /\
+    In n (map fst st') /\
+    (let st'' := fst (uninstall st' n) in
+     snd (uninstall st' n) = None /\ st'' = aremove n st /\
+     get_plugin st'' n = GNone /\ ~ In n (map fst st'') /\ existing tbl st'' n = None).
+Proof. exact installed_get. Qed.
+Print Assumptions C20_installed_get.
+
+(* the installed executable is the same file (name, content, permission bits) whether the source
+   is the executable or any directory designating it *)
+Theorem C20_source_independent_binary : forall tbl st ow src1 src2 e,
+  source_ok src1 = true -> source_ok src2 = true ->
+  spec_exe src1 = Some e -> spec_exe src2 = Some e -> is_cand e = true ->
+  r_err (snd (install tbl st src1 ow)) = None ->
+  exists n v,
+    r_new (snd (install tbl st src1 ow)) = Some (n, v) /\
+    r_new (snd (install tbl st src2 ow)) = Some (n, v) /\
+    get_plugin (fst (install tbl st src1 ow)) n = GFound (mask e) /\
+    get_plugin (fst (install tbl st src2 ow)) n = GFound (mask e).
+Proof. exact source_independent_binary. Qed.
+Print Assumptions C20_source_independent_binary.
+
+(* ---------- invalid versions ---------- *)
+
+(* the regular expression of /repo accepts exactly the strings of the SemVer 2.0.0 grammar:
+   three numeric fields without leading zeros, an optional '-' pre-release of '.'-separated
+   non-empty identifiers over [0-9A-Za-z-] (numeric ones without leading zeros), an optional '+'
+   build of '.'-separated non-empty identifiers *)
+Theorem C20_semver_valid_iff : forall s,
+  sv_valid s = true <-> exists p, C20_SemverProofs.wf p /\ bytes s = C20_SemverProofs.render p.
+Proof. exact C20_SemverProofs.sv_valid_iff. Qed.
+Print Assumptions C20_semver_valid_iff.
+
+(* an invalid version on either side, without overwrite: version error, nothing returned, root untouched *)
+Theorem C20_invalid_version_refused : forall tbl st src n v en ev st' r,
+  source_ok src = true -> install tbl st src false = (st', r) ->
+  candidate tbl src = Some (n, v) -> existing tbl st n = Some (AOk en ev) ->
+  sv_valid v = false \/ sv_valid ev = false ->
+  r_err r = Some EVersion /\ st' = st /\ r_new r = None /\ r_existing r = None.
+Proof. exact invalid_version_refused. Qed.
+Print Assumptions C20_invalid_version_refused.
+
+(* the near-miss strings "1.1" "1" "2.0" "v1.0.0" "1.0.0.0" "01.0.0" "1.0.0-" "1.0.0+" "1.0" " 1.0.0"
+   "1.0.0 " "1.0.0-01" "1.0.0-a..b" (and "") are not versions, and the model runs them, as the new
+   and as the installed version of three- to five-step histories, to: refused, root untouched,
+   the next proper upgrade judged against the untouched plugin *)
+Example C20_nearmiss :
+  forallb (fun s => negb (sv_valid s)) ("" :: nearmiss) = true /\
+  forallb nearmiss_new_ok nearmiss = true /\ forallb nearmiss_installed_ok nearmiss = true.
+Proof. exact nearmiss_model. Qed.
+
+(* ---------- invalid or misnamed metadata: plugin.validate is part of the model ---------- *)
+
+Theorem C20_validate_spec : forall m,
+  validate m = true <->
+  rm_name m <> "" /\ rm_desc m <> "" /\ rm_ver m <> "" /\ rm_url m <> "" /\
+  rm_caps m <> [] /\ In contract_version (rm_contracts m).
+Proof. exact validate_spec. Qed.
+Print Assumptions C20_validate_spec.
+
+(* a usable source, read on what its executable prints (rt: content -> printed metadata) *)
+Theorem C20_candidate_raw_iff : forall rt src n v, source_ok src = true ->
+  (candidate (tbl_of rt) src = Some (n, v) <->
+   exists e m, spec_exe src = Some e /\ pname_of (f_name e) = Some n /\ valid_name n = true /\
+               rtbl_get (f_cid e) rt = RJson m /\ validate m = true /\ rm_name m = n /\ rm_ver m = v).
+Proof. exact candidate_raw_iff. Qed.
+Print Assumptions C20_candidate_raw_iff.
+
+Theorem C20_metadata_refused : forall rt st src ow e n st' r,
+  source_ok src = true -> spec_exe src = Some e -> pname_of (f_name e) = Some n ->
+  install (tbl_of rt) st src ow = (st', r) ->
+  (forall m, rtbl_get (f_cid e) rt = RJson m -> validate m = false \/ rm_name m <> n) ->
+  st' = st /\ r_new r = None /\ r_existing r = None /\
+  r_err r = Some (match rtbl_get (f_cid e) rt with
+                  | RJson m => if validate m then EMisnamed else EMetaInvalid
+                  | _ => EMetaInvalid
+                  end).
+Proof. exact metadata_refused. Qed.
+Print Assumptions C20_metadata_refused.
 
 (* ---------- the code before the fix commits did not have the property ---------- *)
 (* 3438892 (F7): the candidate name was erased by a later non-matching file *)
